@@ -6,14 +6,20 @@ import (
 	"fmt"
 	"os"
 
+	"verifharness/internal/c01"
 	"verifharness/internal/c06"
+	"verifharness/internal/c07"
+	"verifharness/internal/c20"
 	"verifharness/internal/common"
 )
 
 type sub func(tier string, seed int64, outDir string) *common.Meta
 
 var subs = map[string]sub{
+	"c01": c01.Run,
 	"c06": c06.Run,
+	"c07": c07.Run,
+	"c20": c20.Run,
 }
 
 var gens = map[string]func(outDir string) error{
